@@ -304,7 +304,14 @@ def _flush(ctx, **params):
     return h_flush_params(ctx, **params)
 
 
+def _fwd_acked(ctx, **params):
+    from .c06_partial import h_step_forward_acked
+
+    return h_step_forward_acked(ctx, **params)
+
+
 HARNESSES = {
+    "forward-tsn-bookkeeping": Harness("forward-tsn-bookkeeping", _fwd_acked, lambda tier: [{"q": q} for q in ((0, 1) if tier == "quick" else (0, 1, 2))], style="STEP", bounds="sender with an outstanding FORWARD-TSN (1..3 abandoned chunks, one stream entry) and 0..1 (2) further chunks; one SACK: an acknowledged FORWARD-TSN leaves no (stream, sequence) entries that a later one could replay onto a stream id since re-used by a reliable channel", encoded=["aiortc.rtcsctptransport:RTCSctpTransport._update_advanced_peer_ack_point", "aiortc.rtcsctptransport:RTCSctpTransport._receive_sack_chunk"], twin="sack-over-forward-tsn-processed", opts={"samples": 1}),
     "flush-params": Harness("flush-params", _flush, lambda tier: [{"n": n} for n in ((2,) if tier == "quick" else (2, 3))], style="BMC over configurations", bounds="a reliable channel's message flushed in one call with messages of partially reliable / unordered channels (solver-chosen kinds and order): it is handed to _send without lifetime, retransmission limit, and ordered", encoded=["aiortc.rtcsctptransport:RTCSctpTransport._data_channel_flush"], stubs=["RTCSctpTransport._send -> recorder"], twin="flushed", opts={"samples": 1}),
     "reuse": Harness("reuse", h_reuse, lambda tier: [{"has_channel": h} for h in (True, False)], style="STEP", bounds="one stream id, previous incarnation at a symbolic stream sequence number, incoming stream reset with / without a local channel object, then two messages of the next incarnation in swapped order; TSN origin symbolic", encoded=["aiortc.rtcsctptransport:RTCSctpTransport._receive_reconfig_param", "aiortc.rtcsctptransport:InboundStream.pop_messages"], twin="stream-reset-handled", opts={"samples": 1}),
     "mixed-pr": Harness(
